@@ -8,9 +8,12 @@ pub mod c10;
 pub mod c12;
 pub mod c13;
 pub mod c14;
+pub mod c15;
+pub mod c16;
 pub mod c17;
+pub mod c18;
 
-pub const ALL: &[&str] = &["C01", "C02", "C06", "C09", "C10", "C12", "C13", "C14", "C17"];
+pub const ALL: &[&str] = &["C01", "C02", "C06", "C09", "C10", "C12", "C13", "C14", "C15", "C16", "C17", "C18"];
 
 pub fn run(ctx: &Ctx) -> bool {
     match ctx.prop.as_str() {
@@ -22,7 +25,10 @@ pub fn run(ctx: &Ctx) -> bool {
         "C12" => c12::run(ctx),
         "C13" => c13::run(ctx),
         "C14" => c14::run(ctx),
+        "C15" => c15::run(ctx),
+        "C16" => c16::run(ctx),
         "C17" => c17::run(ctx),
+        "C18" => c18::run(ctx),
         _ => return false,
     }
     true
@@ -38,7 +44,10 @@ pub fn checks(id: &str) -> Vec<Box<dyn DynCheck>> {
         "C12" => c12::checks(),
         "C13" => c13::checks(),
         "C14" => c14::checks(),
+        "C15" => c15::checks(),
+        "C16" => c16::checks(),
         "C17" => c17::checks(),
+        "C18" => c18::checks(),
         _ => vec![],
     }
 }
